@@ -157,43 +157,35 @@ func (o *onode) text(form string) string {
 	return b.String()
 }
 
-// shape is the document's shape class for signatures: leaves are L, member
-// keys are dropped and runs of identically shaped siblings collapse to "s+".
+// shape is the document's shape class for signatures: kind of the root,
+// nesting depth and whether some container holds more than one member.
 func (o *onode) shape() string {
-	open, close := "[", "]"
-	switch o.kind {
-	case 'l':
-		return "L"
-	case 'o':
-		open, close = "{", "}"
-	}
-	var b strings.Builder
-	b.WriteString(open)
-	prev, run := "", 0
-	flush := func() {
-		if run > 0 {
-			b.WriteString(prev)
-			if run > 1 {
-				b.WriteByte('+')
-			}
+	depth, wide := 0, false
+	var walk func(n *onode, d int)
+	walk = func(n *onode, d int) {
+		if d > depth {
+			depth = d
+		}
+		if len(n.kids) > 1 {
+			wide = true
+		}
+		for _, k := range n.kids {
+			walk(k, d+1)
 		}
 	}
-	for _, k := range o.kids {
-		s := k.shape()
-		if s == prev {
-			run++
-			continue
-		}
-		flush()
-		prev, run = s, 1
+	walk(o, 0)
+	kind := map[byte]string{'l': "leaf", 'a': "arr", 'o': "obj"}[o.kind]
+	if o.kind == 'l' {
+		return kind
 	}
-	flush()
-	b.WriteString(close)
-	s := b.String()
-	if len(s) > 24 {
-		s = s[:24] + "~"
+	if len(o.kids) == 0 {
+		return kind + ":empty"
 	}
-	return s
+	w := "w1"
+	if wide {
+		w = "w2+"
+	}
+	return kind + ":d" + strconv.Itoa(depth) + ":" + w
 }
 
 // ------------------------------------------------------------------ the harness' own scanner
